@@ -134,7 +134,8 @@ def run(tier, seed, rep, replay=None):
         "distinct_nontrivial": stats["distinct"],
         "rule": "all overlap-free tables with <=3 (quick) / <=4 (thorough, plus 60000 sampled 5-rule) rules over "
                 "identifiers 0..7/0..8 and 3/4 ports in every rule order (exhaustive), plus seeded random wide-domain "
-                "tables and random possibly-overlapping tables; non-trivial = accepted and at least one merge happened; "
+                "tables and random possibly-overlapping tables; each range built as start/end, start/size or base/size/idx "
+                "(by rule content and position); non-trivial = accepted and at least one merge happened; "
                 "distinct by canonical JSON",
         "samples": cases[5000:5003] if len(cases) > 5003 else cases[:3],
         "input_distribution": {k: stats[k] for k in ("accepted", "rejected", "merging")},
